@@ -199,7 +199,7 @@ def _():
 
 
 # ---------------------------------------------------------------- CONNACK
-KEEP_CONN = ['g_base', '_buffer', 'g_dispatched', 'g_firing', 'id', 'IDLE', 'CONNECTING', 'CONNECTED', 'protocol', 'factory', 'addr', 'transport',
+KEEP_CONN = ['g_base', 'g_addr', '_buffer', 'g_dispatched', 'g_firing', 'id', 'IDLE', 'CONNECTING', 'CONNECTED', 'protocol', 'factory', 'addr', 'transport',
              '_pingReq', 'queuePublishTx', 'windowPublish', 'windowPubRelease', 'windowPubRx', 'windowSubscribe',
              'windowUnsubscribe', '_window', '_initialT', '_bandwith', '_factor', '_version', '_cleanStart',
              'onPublish', 'onDisconnection', 'onMqttConnectionMade', 'pdu', 'tr_aborts', 'tr_closes', 'resultCode', 'session']
